@@ -258,9 +258,46 @@ def r2_zero_container(ctx, cfg='A', rule='C03.R2'):
 
 
 BUF_RE = re.compile(r'^&(mut )?(std::vec::Vec<|\[)\((des::net::runtime::events::NetEvents|E), des::time::SimTime\)')
-REORDER = ('sort', 'reverse', 'swap', 'remove', 'insert', 'rotate', 'retain', 'dedup', 'truncate', 'pop', 'split_off',
+REORDER = ('push_front', 'sort', 'reverse', 'swap', 'remove', 'insert', 'rotate', 'retain', 'dedup', 'truncate', 'pop', 'split_off',
            'clear', 'splice', 'extract_if', 'select_nth', 'fill', 'copy_within', 'clone_from')
 ESCAPE = ('deref_mut', 'as_mut_slice', 'as_mut_ptr', 'iter_mut', 'as_mut', 'last_mut', 'first_mut', 'get_mut', 'index_mut', 'borrow_mut', 'leak')
+
+
+def _buffer_container_types(P):
+    """role: the container(s) that hold the handler's buffered events — the Vec of (event, time) pairs on the pinned tree; after a private
+    representation change, the Vec/VecDeque reached from BufferContext whose elements carry a NetEvents (directly, as a tuple, or as a
+    field of a private record)"""
+    NE = 'des::net::runtime::events::NetEvents'
+    out = set()
+
+    def carries(ty, depth=2):
+        if NE in ty:
+            return True
+        if depth <= 0:
+            return False
+        for k, a in P.adts.items():
+            if k.startswith('des::net::runtime::ctx::') and k in ty:
+                if any(carries(fd['ty'], depth - 1) for v in a.get('variants', []) for fd in v['fields']):
+                    return True
+        return False
+
+    def visit(ty, depth=3):
+        m = re.match(r'^(std::vec::Vec|std::collections::VecDeque)<(.*)>$', ty)
+        if m and carries(m.group(2)):
+            out.add(ty)
+            return
+        if depth <= 0:
+            return
+        for k, a in P.adts.items():
+            if k.startswith('des::net::runtime::ctx::') and ty.split('<')[0] == k:
+                for v in a.get('variants', []):
+                    for fd in v['fields']:
+                        visit(fd['ty'], depth - 1)
+    bc = P.adts.get('des::net::runtime::ctx::BufferContext') or {}
+    for v in bc.get('variants', []):
+        for fd in v['fields']:
+            visit(fd['ty'])
+    return out
 
 
 def r3_emission_order(ctx):
@@ -269,11 +306,16 @@ def r3_emission_order(ctx):
     f = ctx.anchor('des::net::runtime::ctx::buf_process')
     if not f:
         return
+    conts = _buffer_container_types(P)
+
+    def is_buffer(ty):
+        t = re.sub(r"^&\s*('[a-z_]+\s+)?(mut\s+)?", '', ty)
+        return bool(BUF_RE.match(ty)) or any(t.replace(', std::alloc::Global', '') == c.replace(', std::alloc::Global', '') or t == c for c in conts)
     # every operation on the buffer vector anywhere
     n = 0
     for g in P.fn_list:
         for s in g.calls():
-            if not s.argtys or not BUF_RE.match(s.argtys[0]):
+            if not s.argtys or not is_buffer(s.argtys[0]):
                 continue
             n += 1
             m = s.name.split('::')[-1]
@@ -287,7 +329,7 @@ def r3_emission_order(ctx):
     if not ctx.floor('add_event in the flush loop of buf_process', len(adds), 1):
         return
     for g, s, it, trees in adds:
-        ok = it is not None and it[0] == 'call' and it[1] == 'std::vec::Vec::drain' and receiver_field(it[2][0]) is not None \
+        ok = it is not None and it[0] == 'call' and it[1] in ('std::vec::Vec::drain', 'std::collections::VecDeque::drain') and receiver_field(it[2][0]) is not None \
             and peel(it[2][1])[0] == 'agg' and 'RangeFull' in str(peel(it[2][1])[1])
         if not ok and it is not None and it[0] == 'call' and it[1] in ('std::mem::take', 'std::mem::replace') and receiver_field(it[2][0]) is not None:
             # the whole buffer is moved out and consumed front to back (`for x in mem::take(&mut buf)`)
